@@ -241,6 +241,9 @@ type Deadlock struct {
 	// Recursive lists "outer site -> inner site" for every thread that waits for a read lock on an
 	// object it already holds for reading (a writer announced itself in between).
 	Recursive [][2]string
+	// Cycle: the blocked operations' sites of the threads on a wait-for cycle (bystanders that merely
+	// wait for a lock held by a thread of the cycle are left out); empty if no cycle was found.
+	Cycle []string
 }
 
 // ThreadPanic is a panic that escaped a thread body.
@@ -700,6 +703,69 @@ func (r *run) declareDeadlock() {
 		}
 		d.Waiting = append(d.Waiting, fmt.Sprintf("%s blocked in %s of %s at %s; holds:%s", t.name, t.kind, obj, SiteName(t.site), hs))
 		d.Sites = append(d.Sites, SiteName(t.site))
+	}
+	// wait-for graph: t -> the threads that hold what t waits for
+	n := len(r.threads)
+	waits := make([][]int, n)
+	for _, t := range r.threads {
+		if t.state == stFinished || t.obj == nil {
+			continue
+		}
+		for _, u := range r.threads {
+			if u == t {
+				continue
+			}
+			for _, h := range u.held {
+				if h.obj != t.obj.ID {
+					continue
+				}
+				conflict := true
+				if (t.kind == vsync.KRLock || t.kind == vsync.KRLockQueued) && h.mode == vsync.KRLock {
+					conflict = false
+				}
+				if conflict {
+					waits[t.id] = append(waits[t.id], u.id)
+				}
+			}
+			// a reader queued behind an announced writer waits for that writer even while it drains
+			if t.kind == vsync.KRLockQueued && t.obj.Owner == int32(u.id)+1 {
+				waits[t.id] = append(waits[t.id], u.id)
+			}
+		}
+	}
+	var path []int
+	onPath := make([]bool, n)
+	done := make([]bool, n)
+	var cyc []int
+	var dfs func(v int) bool
+	dfs = func(v int) bool {
+		onPath[v] = true
+		path = append(path, v)
+		for _, w := range waits[v] {
+			if onPath[w] {
+				for i, x := range path {
+					if x == w {
+						cyc = append([]int{}, path[i:]...)
+						return true
+					}
+				}
+			}
+			if !done[w] && dfs(w) {
+				return true
+			}
+		}
+		onPath[v] = false
+		path = path[:len(path)-1]
+		done[v] = true
+		return false
+	}
+	for v := 0; v < n && cyc == nil; v++ {
+		if !done[v] && r.threads[v].state != stFinished {
+			dfs(v)
+		}
+	}
+	for _, v := range cyc {
+		d.Cycle = append(d.Cycle, SiteName(r.threads[v].site))
 	}
 	r.res.Deadlock = d
 }
